@@ -337,7 +337,17 @@ def _dotseg_body(n, s0, s1, s2, s3, s4, lead, trail):
     segs = [SEGS[i] for i in [s0, s1, s2, s3, s4][:n]]
     path = ("/" if lead else "") + "/".join(segs) + ("/" if trail else "")
     if not path.startswith("/"):
-        return True      # urllib3 only normalises absolute paths of URLs with an authority; relative refs are outside
+        # a rootless path behind a scheme ('http:../admin'): whatever urllib3 makes of it, the result carries no dot-segment and
+        # is a fixed point of parsing
+        u = parse_url("http:" + path)
+        segs_out = (u.path or "").split("/")
+        if "." in segs_out or ".." in segs_out:
+            return _fail("%r parsed to path %r: dot-segment left" % ("http:" + path, u.path))
+        again = parse_url(u.url)
+        if again != u:
+            return _fail("%r -> %r, whose string form %r parses to %r" % ("http:" + path, u, u.url, again))
+        mark("rootless")
+        return True
     got = _remove_path_dot_segments(path)
     out_segs = got.split("/")
     if "." in out_segs or ".." in out_segs:
